@@ -579,3 +579,145 @@ func promoteStructParams(fset *token.FileSet, pkg *types.Package, info *types.In
 	}
 	return changed
 }
+
+// elimPointerAliases: `var p *T = &v` (what the inliner writes for a pointer receiver bound to a local) where p is
+// never assigned again and only ever used as `p.f` is removed, its uses reading `v.f`. The local v is then a
+// candidate for sroaLocals.
+func elimPointerAliases(fset *token.FileSet, info *types.Info, file *ast.File) ([]byte, int) {
+	type alias struct {
+		p, v *types.Var
+		decl ast.Stmt
+		vid  *ast.Ident
+		ok   bool
+	}
+	aliases := map[*types.Var]*alias{}
+	inList := map[ast.Stmt]bool{}
+	ast.Inspect(file, func(n ast.Node) bool {
+		switch x := n.(type) {
+		case *ast.BlockStmt:
+			for _, st := range x.List {
+				inList[st] = true
+			}
+		case *ast.CaseClause:
+			for _, st := range x.Body {
+				inList[st] = true
+			}
+		case *ast.CommClause:
+			for _, st := range x.Body {
+				inList[st] = true
+			}
+		}
+		return true
+	})
+	addrOfLocal := func(e ast.Expr) (*types.Var, *ast.Ident) {
+		ue, ok := ast.Unparen(e).(*ast.UnaryExpr)
+		if !ok || ue.Op != token.AND {
+			return nil, nil
+		}
+		id, ok := ast.Unparen(ue.X).(*ast.Ident)
+		if !ok {
+			return nil, nil
+		}
+		v, ok := info.Uses[id].(*types.Var)
+		if !ok || v.IsField() || v.Pkg() == nil || v.Parent() == v.Pkg().Scope() {
+			return nil, nil
+		}
+		if _, isSt := v.Type().Underlying().(*types.Struct); !isSt {
+			return nil, nil
+		}
+		return v, id
+	}
+	ast.Inspect(file, func(n ast.Node) bool {
+		st, isStmt := n.(ast.Stmt)
+		if !isStmt || !inList[st] {
+			return true
+		}
+		switch x := n.(type) {
+		case *ast.DeclStmt:
+			gd, ok := x.Decl.(*ast.GenDecl)
+			if !ok || gd.Tok != token.VAR || len(gd.Specs) != 1 {
+				return true
+			}
+			vs := gd.Specs[0].(*ast.ValueSpec)
+			if len(vs.Names) != 1 || len(vs.Values) != 1 {
+				return true
+			}
+			p, _ := info.Defs[vs.Names[0]].(*types.Var)
+			if v, vid := addrOfLocal(vs.Values[0]); v != nil && p != nil {
+				aliases[p] = &alias{p: p, v: v, decl: x, vid: vid, ok: true}
+			}
+		case *ast.AssignStmt:
+			if x.Tok != token.DEFINE || len(x.Lhs) != 1 || len(x.Rhs) != 1 {
+				return true
+			}
+			id, ok := x.Lhs[0].(*ast.Ident)
+			if !ok {
+				return true
+			}
+			p, _ := info.Defs[id].(*types.Var)
+			if v, vid := addrOfLocal(x.Rhs[0]); v != nil && p != nil {
+				aliases[p] = &alias{p: p, v: v, decl: x, vid: vid, ok: true}
+			}
+		}
+		return true
+	})
+	if len(aliases) == 0 {
+		return nil, 0
+	}
+	var stack []ast.Node
+	ast.Inspect(file, func(n ast.Node) bool {
+		if n == nil {
+			stack = stack[:len(stack)-1]
+			return true
+		}
+		stack = append(stack, n)
+		id, ok := n.(*ast.Ident)
+		if !ok {
+			return true
+		}
+		v, ok := info.Uses[id].(*types.Var)
+		if !ok {
+			return true
+		}
+		a := aliases[v]
+		if a == nil {
+			return true
+		}
+		if len(stack) >= 2 {
+			if se, isSel := stack[len(stack)-2].(*ast.SelectorExpr); isSel && se.X == ast.Expr(id) {
+				if sel := info.Selections[se]; sel != nil && sel.Kind() == types.FieldVal && len(sel.Index()) == 1 {
+					return true
+				}
+			}
+		}
+		a.ok = false
+		return true
+	})
+	n := 0
+	declOf := map[ast.Stmt]*alias{}
+	for _, a := range aliases {
+		// the aliased local must be visible under its name wherever the alias is used: the same name (the alias
+		// shadows it) or a name nothing in between redeclares - only the first is accepted
+		if a.ok && a.p.Name() == a.v.Name() {
+			n++
+			declOf[a.decl] = a
+		} else {
+			a.ok = false
+		}
+	}
+	if n == 0 {
+		return nil, 0
+	}
+	astutil.Apply(file, func(cur *astutil.Cursor) bool {
+		if st, ok := cur.Node().(ast.Stmt); ok && cur.Index() >= 0 && declOf[st] != nil {
+			cur.Delete()
+			return false
+		}
+		return true
+	}, nil)
+	var buf bytes.Buffer
+	if err := format.Node(&buf, fset, file); err != nil {
+		return nil, 0
+	}
+	return buf.Bytes(), n
+}
